@@ -43,10 +43,28 @@ func shrinkReplay(t *testing.T, eng Engine, rf ReplayFile, budget time.Duration)
 	if best == nil {
 		return rf // does not reproduce in-process; leave as is
 	}
+	// Canonical tape: without trailing zeros (a tape that runs out yields zeros).
+	trim := func(t []uint32) []uint32 {
+		for len(t) > 0 && t[len(t)-1] == 0 {
+			t = t[:len(t)-1]
+		}
+		return t
+	}
+	same := func(a, b []uint32) bool {
+		if len(a) != len(b) {
+			return false
+		}
+		for i := range a {
+			if a[i] != b[i] {
+				return false
+			}
+		}
+		return true
+	}
 	adopt := func(r *RunResult, s json.RawMessage) {
 		best = r
 		sc = s
-		tape = r.Tape
+		tape = trim(r.Tape)
 	}
 	adopt(best, sc)
 
@@ -94,9 +112,12 @@ func shrinkReplay(t *testing.T, eng Engine, rf ReplayFile, budget time.Duration)
 				// delete
 				cand := append(append([]uint32{}, tape[:start]...), tape[start+size:]...)
 				if r := try(sc, cand); r != nil {
+					before := tape
 					adopt(r, sc)
-					progress = true
-					continue
+					if !same(before, tape) && len(tape) <= len(before) {
+						progress = true
+						continue
+					}
 				}
 				if !allZero {
 					cand = append([]uint32{}, tape...)
@@ -104,8 +125,11 @@ func shrinkReplay(t *testing.T, eng Engine, rf ReplayFile, budget time.Duration)
 						cand[i] = 0
 					}
 					if r := try(sc, cand); r != nil {
+						before := tape
 						adopt(r, sc)
-						progress = true
+						if !same(before, tape) {
+							progress = true
+						}
 					}
 				}
 				start += size
@@ -120,8 +144,11 @@ func shrinkReplay(t *testing.T, eng Engine, rf ReplayFile, budget time.Duration)
 				cand := append([]uint32{}, tape...)
 				cand[i] = v
 				if r := try(sc, cand); r != nil {
+					before := tape
 					adopt(r, sc)
-					progress = true
+					if !same(before, tape) {
+						progress = true
+					}
 					break
 				}
 			}
